@@ -31,6 +31,10 @@ def _strategy(tier):
                                "args": st.lists(_arg(), min_size=1, max_size=2)}),
         st.fixed_dictionaries({"cls": st.just("DampedPhaseSpaceFactor"), "name": st.sampled_from([None, "N", r"\rho_d"]),
                                "args": st.lists(_arg(), min_size=3, max_size=4)}),
+        st.fixed_dictionaries({"cls": st.just("DeprecatedPower"), "name": st.sampled_from([None, "N", r"\rho_d"]),
+                               "args": st.lists(_arg(), min_size=2, max_size=2)}),
+        st.fixed_dictionaries({"cls": st.just("UnevaluatedExpression"), "name": st.sampled_from([None, "N"]),
+                               "args": st.lists(_arg(), min_size=0, max_size=2)}),
     ).flatmap(lambda d: st.fixed_dictionaries({**{k: st.just(v) for k, v in d.items()}, "protocol": st.integers(2, 5)}))
 
 
@@ -52,6 +56,12 @@ def build(desc):
         if len(args) == 1:
             return cc.AttrBetween(args[0], cc.FUNCTORS[desc["functor"]])
         return cc.AttrBetween(args[0], cc.FUNCTORS[desc["functor"]], args[1])
+    if desc["cls"] == "DeprecatedPower":
+        return cc.DeprecatedPower(*args, name=desc["name"])
+    if desc["cls"] == "UnevaluatedExpression":  # the deprecated base class itself (tests/dynamics/test_deprecated.py)
+        from ampform.sympy.deprecated import UnevaluatedExpression  # noqa: PLC0415
+
+        return UnevaluatedExpression(*args, name=desc["name"])
     if len(args) == 3:
         return cc.DampedPhaseSpaceFactor(*args, name=desc["name"])
     return cc.DampedPhaseSpaceFactor(*args[:3], name=desc["name"], damping=args[3])
@@ -63,17 +73,27 @@ def _plain(value) -> str:
     return repr(value)
 
 
+def _latex(obj) -> str:
+    try:
+        return sp.latex(obj)
+    except Exception as exc:  # noqa: BLE001
+        return type(exc).__name__
+
+
 def fingerprint(obj, extra) -> dict:
     import dataclasses  # noqa: PLC0415
 
     del extra
-    return {
-        "cls": type(obj).__name__,
-        "args": sp.srepr(obj.args),
-        "fields": [[f.name, sp.srepr(getattr(obj, f.name)) if f.metadata.get("sympify") else _plain(getattr(obj, f.name))]
-                   for f in dataclasses.fields(obj)],
-        "doit": sp.srepr(obj.doit()),
-    }
+    if dataclasses.is_dataclass(obj):
+        fields = [[f.name, sp.srepr(getattr(obj, f.name)) if f.metadata.get("sympify") else _plain(getattr(obj, f.name))]
+                  for f in dataclasses.fields(obj)]
+    else:  # deprecated API: the name lives in a slot
+        fields = [["_name", repr(getattr(obj, "_name", "<missing>"))]]
+    try:
+        unfolded = sp.srepr(obj.doit())
+    except Exception as exc:  # noqa: BLE001  (the abstract base has no evaluate)
+        unfolded = type(exc).__name__
+    return {"cls": type(obj).__name__, "args": sp.srepr(obj.args), "fields": fields, "doit": unfolded, "latex": _latex(obj)}
 
 
 def _run(desc):
